@@ -390,6 +390,75 @@ class Campaign:
                                        "model": (mname, 0)})
 
     @_timed
+    def real_phase(self, models, nruns, labels=("C09", "C01")):
+        """truly concurrent worker threads (no cooperative scheduler, nothing traced): with LPs that freeze once their predicate holds the
+        state of every LP at LP_FINI is the state C01 speaks about, so the final states of a real-thread run must equal those of the serial
+        run of the same binary, whatever the number of threads, the checkpoint interval and the GVT period (C09).  This is the only phase
+        that sees data races and effects of the memory model; a run that does not return within its time limit is counted (the known
+        shutdown deadlock D9 cannot be told apart without a trace) and is an alarm only when more than a third of the runs hang."""
+        import re as _re
+        r = random.Random(self.seed * 31 + 5)
+
+        def fin(path):
+            out = []
+            for line in open(path):
+                if '"ModelFini"' in line:
+                    e = json.loads(line)
+                    out.append((e["lp"], e["s"], e["cnt"], e["dgA"], e["dgB"], e["pred"]))
+            return sorted(out)
+
+        for fm in models:
+            md = self.prepare_model(fm[0], fm[1], fm[2] if len(fm) > 2 else "medium")
+            self.stats["models"] += 1
+            if not md["ok"]:
+                self.machinery.append({"property": "C10", "what": md["why"], "model": (fm[0], fm[1])})
+                continue
+            ser = os.path.join(md["dir"], "frozen_serial.ndjson")
+            rc, out = run_twh(self.bdir, ["--model", md["txt"], "--out", ser, "--serial", "--quiet-core", "--freeze"], timeout=60)
+            if rc != 0:
+                self.machinery.append({"property": self.pid, "what": "frozen serial run failed rc=%s %s" % (rc, out[-200:]), "model": (fm[0], fm[1])})
+                continue
+            ref = fin(ser)
+            cfgs = [{"threads": r.choice([2, 3, 4, 6, 8, 8, 16]), "ckpt": r.choice([0, 1, 2, 3, 7]), "period": r.choice([50, 200, 1000, 5000]),
+                     "sseed": r.randrange(1, 1 << 30)} for _ in range(nruns)]
+
+            def one(ic):
+                i, c = ic
+                tr = os.path.join(md["dir"], "real_%d.ndjson" % i)
+                rc, out = run_twh(self.bdir, ["--model", md["txt"], "--out", tr, "--real", "--freeze", "--threads", c["threads"], "--ckpt", c["ckpt"],
+                                              "--gvt-period", c["period"], "--seed", c["sseed"]], timeout=20)
+                if rc != 0:
+                    return (c, "hang" if rc == -9 else "rc=%s" % rc, None)
+                got = fin(tr)
+                return (c, "ok" if got == ref else "diff", tr if got != ref else None)
+
+            # the runs are concurrent by themselves: a few at a time
+            res = vlib.pmap(one, list(enumerate(cfgs)), jobs=3)
+            st = self.stats.setdefault("real", {"runs": 0, "equal_to_serial": 0, "differ": 0, "not_returned": 0, "crashed": 0})
+            for c, verdict, tr in res:
+                st["runs"] += 1
+                self.stats["distinct_cfg"].add((fm[0], fm[1], "real", json.dumps(c, sort_keys=True)))
+                if verdict == "ok":
+                    st["equal_to_serial"] += 1
+                elif verdict == "diff":
+                    st["differ"] += 1
+                    for lab in labels:
+                        if lab in self.own:
+                            self.violations.append({"property": lab, "what": "with truly concurrent worker threads the final LP states differ from the serial run of the same model "
+                                                    "(result depends on the number of threads / the interleaving)", "line": 0, "cfg": dict(c, real=1), "model": (fm[0], fm[1]),
+                                                    "trace": tr, "md": md})
+                            break
+                elif verdict == "hang":
+                    st["not_returned"] += 1
+                else:
+                    st["crashed"] += 1
+                    self.violations.append({"property": "C11" if "C11" in self.own else self.pid, "what": "real-thread run crashed (%s)" % verdict, "line": 0,
+                                            "cfg": dict(c, real=1), "model": (fm[0], fm[1]), "trace": None, "md": md}) if ("C11" in self.own or True) else None
+            if st["not_returned"] * 3 > st["runs"]:
+                self.violations.append({"property": "C08" if "C08" in self.own else self.pid, "what": "%d of %d real-thread runs did not return within 20 s" % (
+                    st["not_returned"], st["runs"]), "line": 0, "cfg": {"real": 1}, "model": (fm[0], fm[1]), "trace": None, "md": md})
+
+    @_timed
     def sweep_phase(self, family, mseed, cfgs, size="small"):
         """the same model under a list of configurations that differ in one injected delay; traces validated in concatenated chunks"""
         md = self.prepare_model(family, mseed, size)
@@ -614,7 +683,7 @@ class Campaign:
                "driver_lines_validated": self.stats.get("driver_lines", 0), "conformance_divergences": self.stats.get("divergences", 0),
                "model_checking_runs": self.stats.get("mc", []), "model_checking_reachability_probes": self.stats.get("mc_probes", []),
                "design_level_reproduction_of_known_findings": self.stats.get("mc_known", []),
-               "tlc_behaviours_replayed_in_real_code": self.stats.get("replay", []), "phase_wall_s": self.stats.get("phase_wall_s", []), "single_delay_sweep_runs": self.stats.get("sweep_runs", 0),
+               "tlc_behaviours_replayed_in_real_code": self.stats.get("replay", []), "phase_wall_s": self.stats.get("phase_wall_s", []), "single_delay_sweep_runs": self.stats.get("sweep_runs", 0), "real_thread_runs": self.stats.get("real", {}),
                "conformance_divergence_kinds": self.stats.get("divergence_kinds", {}),
                "micro_model_runs_on_real_code": self.stats.get("micro_runs", 0), "micro_model_distinct_interleavings": self.stats.get("micro_distinct", 0),
                "exhaustive": False}
